@@ -49,3 +49,38 @@ class DelegPart:
         dcases = (self.directed() if self.directed else []) + [self.gen(rng) for _ in range(self.n[tier])]
         n, payload = run_part(self.prop, self.crate, dcases, seed, self.what)
         return n, payload, {"receiver_part": {"evaluations": n, "rule": self.rule}}
+
+
+def report_case(rng):
+    """`impl Termination for Unimock` with the mock-std feature: report() first evaluates TerminationMock::report (partial by
+    default). Clauses on it: none, returns(code) / returns_default / panics / applies_unmocked / applies_default_impl, with a matcher
+    that accepts or rejects, unordered or ordered (mixed with ordered clauses of trait T), strict and partial; after a history of calls
+    on T (met or unmet expectations, recorded errors) the original, or a clone, is report()ed"""
+    tag = [1]
+    def fresh():
+        tag[0] += 1
+        return tag[0]
+    ordered = rng.random() < 0.3
+    terms = []
+    opener = "next" if ordered else rng.choice(["each", "some"])
+    for mid in rng.sample([0, 1, 2], rng.randint(1, 2)):
+        ops = [("ret", fresh())] + ([("n", rng.randint(1, 2))] if rng.random() < 0.3 else [])
+        terms.append({"kind": "call", "mid": mid, "opener": opener if ordered else rng.choice(["each", "each", "some"]),
+                      "pat": {"matcher": 255, "dbg": fresh(), "ops": ops}})
+    r = rng.random()
+    if r < 0.8:
+        kind = rng.choice(["ret", "ret", "retd", "pan", "unm", "dfl", "ret_n"])
+        ops = {"ret": [("ret", rng.randint(2, 9))], "retd": [("retd",)], "pan": [("pan", fresh())], "unm": [("unm",)], "dfl": [("dfl",)],
+               "ret_n": [("ret", rng.randint(2, 9)), ("n", 1)]}[kind]
+        mask = rng.choice([511, 511, 511, 255])           # bit 8 = the empty argument tuple: 255 rejects it
+        terms.insert(rng.randint(0, len(terms)), {"kind": "call", "mid": 8, "opener": opener, "pat": {"matcher": mask, "dbg": fresh(), "ops": ops}})
+    evs = []
+    if rng.random() < 0.3:
+        evs.append({"base": ("clone", 0)})
+    nins = 2 if evs else 1
+    for _ in range(rng.randint(0, 4)):
+        evs.append({"base": ("call", rng.randrange(nins), rng.choice([0, 1, 2, 3]), rng.randrange(8))})
+    if nins == 2:
+        evs.append({"base": (rng.choice(["drop", "drop", "report"]), 1)})
+    evs.append({"base": ("report", 0)})
+    return {"partial": rng.random() < 0.4, "terms": terms, "events": evs}
